@@ -255,8 +255,12 @@ func (f *file) parentsFromFilename() ([]string, error) {
 func (f *file) toAbsolutePaths(paths []string) ([]string, error) {
 	ret := []string{}
 
+	// Only the $parent value may hold wildcards; the directory of the
+	// declaring file is a literal path, whatever characters it contains.
+	dir := globEscape(filepath.Dir(f.path))
+
 	for _, path := range paths {
-		path = filepath.Join(filepath.Dir(f.path), path)
+		path = filepath.Join(dir, path)
 
 		matches, err := globFiles(path)
 		if err != nil {
